@@ -53,7 +53,9 @@ def evaluate(sid: str, tier: str) -> dict:
                 r = sh([str(ROOT / "check"), p, "--tier", tier], env=env2, timeout=3600, cwd=str(ROOT))
                 out = r.stdout + r.stderr
                 lines = [l for l in out.splitlines() if l.startswith(("VIOLATION", "KNOWN-FINDING"))]
-                res["checks"][p] = {"exit": r.returncode, "lines": [l[:300] for l in lines[:6]],
+                viol = [l for l in lines if l.startswith("VIOLATION")]
+                known = [l for l in lines if not l.startswith("VIOLATION")]
+                res["checks"][p] = {"exit": r.returncode, "lines": [l[:300] for l in viol[:4] + known[:3]],
                                     "wall_s": round(time.time() - t0, 1)}
             except subprocess.TimeoutExpired:
                 res["checks"][p] = {"exit": "timeout", "lines": [], "wall_s": round(time.time() - t0, 1)}
